@@ -113,8 +113,11 @@ func c05Monitor(m *vk.Meta, in mgrIn, out mgrOut) {
 					}
 					ha++
 					n := st.WorldBefore[h]
+					// replicating = both threads running, and the receiver is connected (with its source gone it is "Connecting")
 					if n.Up && n.Chan != nil && n.Chan.IO && n.Chan.SQL {
-						repl++
+						if src, ok := st.WorldBefore[n.Chan.Source]; ok && src.Up {
+							repl++
+						}
 					}
 				}
 				if repl > 0 && repl == ha {
